@@ -46,8 +46,11 @@ class Impl:
         f = '' if self.failures < 0 else f'&failures={self.failures}'
         v = self.variant
         if v == 'manifest':
-            # types map to two different manifests (independent counters are keyed by usage 'manifest' and code, so
-            # both types share the manifest counter: the manifest variant uses a single type)
+            # the manifest counter is keyed by usage and code: type "video" = requests that carry update=<n>
+            # (n addressed -> hit, another n -> miss); type "audio" = the same manifest requested without update=,
+            # which addresses no update count and is therefore always a miss
+            if typ == 'audio':
+                return f'/dash/live/bbb/hand_made.mpd?merr={self.code}=3{f}'
             upd = 3 if hit else 4
             return f'/dash/live/bbb/hand_made.mpd?merr={self.code}=3&update={upd}{f}'
         name, ext, opt = {'video': ('bbb_v7', 'm4v', 'verr'), 'audio': ('bbb_a1', 'm4a', 'aerr')}[typ]
@@ -108,7 +111,9 @@ def item(arg):
     if mode == 'paths':
         paths = g.all_paths(plen)
         if variant == 'manifest':
-            paths = [p for p in paths if all(g.last[n][2] == 'video' for n in p)]
+            # a request without update= can not be a hit; both types share one counter per session, which the model
+            # keeps per type: only paths whose hits are all of one type are meaningful - here: video hits, audio misses
+            paths = [p for p in paths if all(g.last[n][2] == 'video' or g.last[n][0] == 'miss' for n in p)]
         for p in paths[lo:hi]:
             ok = replay_path(g, im, p, acc, tag)
             acc.count('traces')
